@@ -91,6 +91,7 @@ class Registry:
         self.lemmas = {}
         self.axioms = []           # (name, spec string, params) global assumed facts (trusted)
         self.exc_parents = {}
+        self.global_names = {}     # names visible in every contract / spec function of this registry (module-level constants)
 
     def cls(self, name, **kw):
         c = ClassDecl(name, **kw)
